@@ -18,6 +18,8 @@ LEVEL_TEXT = ('Decides from the source: class identity of the model classes is n
               'constant, pattern, join}; marking of rules happens only under the SCC/self-loop guards after a reset; the grammar '
               'error is raised exactly when left-recursive rules exist and left recursion is off; the runtime guard exists. '
               'The marking algorithm is decided exhaustively for all graphs with up to 3 rules (the quantifier of the property); larger graphs and actual recursion depth are not decided.')
+TECHNIQUE += '; recursive-grammar cases for the nullable computation (termination), rule-include cases for left calls, error condition interpreted with a cycle unreachable from the start rule'
+LEVEL_TEXT += ' Added clauses: is_nullable terminates on recursive rules; a left call through `>rule` is seen; cycles are detected in all rules, not only those reachable from the first rule.'
 LEVEL_NOTE = ('CPython: typing.Protocol.__init_subclass__ clears _is_protocol only if every __init_subclass__ before it in the MRO '
               'chains to super(). The nullable table (DESIGN appendix C) is the oracle.')
 EXPLANATION = ('Static analysis of /repo sources, TatSu not imported. Model methods are interpreted by the whitelisted evaluator '
